@@ -622,6 +622,42 @@ func (g *typesGen) superOf(enc string, depth int) string {
 			return "capany"
 		}
 		return "cap " + g.superOf(inner, depth-1)
+	case "rng":
+		inner, _ := sub(1)
+		return "rng " + g.superOf(inner, depth-1)
+	case "f":
+		// function types: a view function is below an impure one, parameters are contravariant (a
+		// parameter of the super type is a *sub* type of the original one: itself, `Never`, or the same
+		// container of `Never`), the return type is covariant
+		purity := toks[1]
+		if purity == "view" && g.r.Chance(40) {
+			purity = "impure"
+		}
+		n, _ := strconv.Atoi(toks[2])
+		out := "f " + purity + " " + toks[2]
+		i := 3
+		for k := 0; k < n; k++ {
+			param, j := sub(i)
+			i = j
+			ptoks := strings.Fields(param)
+			switch {
+			case g.r.Chance(55):
+				out += " " + param
+			case g.r.Chance(40):
+				out += " p Never"
+			case ptoks[0] == "va" || ptoks[0] == "o":
+				out += " " + ptoks[0] + " p Never"
+			case ptoks[0] == "r" && len(ptoks) > 2 && (ptoks[2] == "va" || ptoks[2] == "o"):
+				out += " r " + ptoks[1] + " " + ptoks[2] + " p Never"
+			default:
+				out += " " + param
+			}
+		}
+		ret, _ := sub(i)
+		if g.r.Chance(50) {
+			return out + " " + ret
+		}
+		return out + " " + g.superOf(ret, depth-1)
 	}
 	return "p AnyStruct"
 }
@@ -663,6 +699,8 @@ func genTypes(c *hx.Ctx) {
 	}
 	// the known transitivity failure (container of Never)
 	c.Emit("types", "trans", "r u va p Never", "r u va p AnyResource", "r u p AnyResource")
+	// the same failure in contravariant position (function parameter of the super-most type)
+	c.Emit("types", "trans", "f impure 1 r u p AnyResource p Void", "f impure 1 r u va p AnyResource p Void", "f impure 1 r u va p Never p Void")
 	// random pairs, related pairs, chain-biased triples
 	for i := 0; i < c.N; i++ {
 		a := typesFixAny(g.ty(3))
